@@ -342,6 +342,10 @@ PARTIAL = {
         'cells are the relative coordinates and unscale (with the cell rebuilt from the exact header numbers) to position / '
         'length unit; the same after rounding every printed number is evaluated by the correspondence (dumpPositions on '
         'every real output) and the oracle, not proved',
+    'unit given on a dump column by the caller':
+        'the model derives every dump column spec from the property name (dumpCol); a unit the caller puts on an entry '
+        '(unit="scaled" on pos itself next to spos / upos / supos) is exercised by the search only (posvariant_cases, '
+        'check_dump(posscaled)), the 64 column orders of the four position variants with default units by both',
 }
 RULE = ('systems of 1-16 atoms (1-13 atom types) in orthogonal/triclinic cells (origin anywhere, all 8 pbc settings), atoms inside, outside and '
         'exactly on faces; two regimes: "grid" (power-of-two cell lengths, dyadic tilts/positions: the float arithmetic of '
@@ -376,7 +380,11 @@ RULE = ('systems of 1-16 atoms (1-13 atom types) in orthogonal/triclinic cells (
         'POSCAR factor / natypes as numpy scalars, symbols as tuple; type numbers beyond 8 / 16 bits; per-atom vectors / '
         'tensors with two-digit component numbers; ids congruent modulo 2^8 / 2^16 / 2^32; every dump through the returned '
         'string is made twice on the same object (same file) with a snapshot of the system around it (unchanged, the '
-        'documented wrap of a data file apart)')
+        'documented wrap of a data file apart). Fifth round: dump files with every ordered non-empty subset of pos / spos / '
+        'upos / supos (64 column orders) and, search only, each subset holding pos again with unit "scaled" on the pos '
+        'entry itself (x y z or xs ys zs names), in cells away from the unit cube at the origin; thorough tier only: one '
+        'system of 2^20 + 1 / 5 / 17 atoms through every writer, tables with and without the header line (row-count '
+        'thresholds above ~1.4e5 atoms are out of reach of the quick tier)')
 ASSUMPTIONS = [
     "CPython '%.Nf' / '%.Ne' of a double is the correctly rounded (half-even on ties) decimal of its exact value "
     '(checked against the model on every run, incl. ties and subnormals); a width and the flags + - blank 0 # and %E '
@@ -1086,10 +1094,12 @@ DUMP_STD = {'atom_id': (['id'], None), 'atype': (['type'], None), 'm_id': (['mol
             'ang_momentum': (['angmomx', 'angmomy', 'angmomz'], 'ang-mom'), 'torque': (['tqx', 'tqy', 'tqz'], 'force*length')}
 
 
-def explicit_dump_args(d, units, prop_names, how):
+def explicit_dump_args(d, units, prop_names, how, posunit=None, posnames=None):
     """the conversion parameters the writer derives by itself for `prop_names`, spelled out by the caller: as a
     prop_info list (`how` = 'prop_info') or as parallel prop_name/table_name/shape/unit lists ('lists').  The file
-    must be the same as with the defaults."""
+    must be the same as with the defaults.  `posunit` = 'scaled': the caller asks for `pos` ITSELF box-relative (the
+    documented unit value 'scaled' on the pos entry; what atom_dump.load hands back for a file with scaled columns),
+    under the column names `posnames` (x y z, or the xs ys zs a LAMMPS reader expects for such numbers)."""
     from atomman.lammps import style
     lu = style.unit(units)
     info = []
@@ -1099,6 +1109,10 @@ def explicit_dump_args(d, units, prop_names, how):
             shape = () if len(names) == 1 else (3,)
             unit = None if kind is None else 'scaled' if kind == 'scaled' else \
                 (None if any(lu[p] is None for p in kind.split('*')) else '*'.join(lu[p] for p in kind.split('*')))
+            if nm == 'pos' and posunit:
+                unit = posunit
+            if nm == 'pos' and posnames:
+                names = list(posnames)
         else:
             shape = tuple(d['props'][nm][1])
             names = [nm + ''.join(f'[{i}]' for i in idx) for idx in _indices(shape)]
@@ -1158,7 +1172,8 @@ def ts_value(ts, form):
     return getattr(np, form.split('.', 1)[1])(ts)
 
 
-def real_dump(d, units, ff, prop_names=None, timestep=0, out=None, explicit=None, pre=False, tsform=None):
+def real_dump(d, units, ff, prop_names=None, timestep=0, out=None, explicit=None, pre=False, tsform=None, posunit=None,
+              posnames=None):
     def build(big=False):
         s = build_system(bigger_desc(d) if big else d)
         if tsform == 'none':
@@ -1172,8 +1187,8 @@ def real_dump(d, units, ff, prop_names=None, timestep=0, out=None, explicit=None
         return s
     try:
         kw = {}
-        if prop_names is not None and explicit:
-            kw.update(explicit_dump_args(d, units, prop_names, explicit))
+        if prop_names is not None and (explicit or posunit or posnames):
+            kw.update(explicit_dump_args(d, units, prop_names, explicit or 'lists', posunit, posnames))
         elif prop_names is not None:
             kw['prop_name'] = list(prop_names)
         return ('ok', _dump_via(build, 'atom_dump', out, pre, lammps_units=units, float_format=fmt_py(ff), **kw)[0])
@@ -1916,7 +1931,7 @@ def py_parse_dump(text):
     return {'timestep': ts, 'natoms': n, 'tri': tri, 'boundary': b, 'hilo': hilo, 'cols': cols, 'rows': rows}
 
 
-def check_dump(d, units, ff, parsed, timestep=0):
+def check_dump(d, units, ff, parsed, timestep=0, posscaled=False):
     V, O, P = fr_sys(d)
     lf = oracle_factor(units, 'length')
     if lf == 'undefined':
@@ -1946,7 +1961,10 @@ def check_dump(d, units, ff, parsed, timestep=0):
     ids = []
     colmap = []
     for c in cols:
-        if c in DUMPCOLS and (DUMPCOLS[c][1] in d['props'] or DUMPCOLS[c][1] in ('atom_id', 'atype', 'pos')):
+        if posscaled and c in ('x', 'y', 'z'):
+            # the caller asked for pos itself in unit 'scaled': these columns hold the box-relative coordinates
+            colmap.append(('scaled', 'pos', 'xyz'.index(c)))
+        elif c in DUMPCOLS and (DUMPCOLS[c][1] in d['props'] or DUMPCOLS[c][1] in ('atom_id', 'atype', 'pos')):
             colmap.append(DUMPCOLS[c])
         else:
             ex = extra_column(d, c)
@@ -2559,7 +2577,7 @@ def real_call(c):
                          c.get('potential'), c.get('ntform'))
     if c['kind'] == 'dump':
         return real_dump(c['d'], c['units'], c['ff'], c['prop_names'], c.get('timestep', 0), c.get('out'),
-                         c.get('explicit'), c.get('pre', False), c.get('tsform'))
+                         c.get('explicit'), c.get('pre', False), c.get('tsform'), c.get('posunit'), c.get('posnames'))
     if c['kind'] == 'poscar':
         return real_poscar(c['d'], c['ff'], c['coordstyle'], c['scale'], c['header'], c.get('symarg', c['symbols']),
                            c.get('out'), c.get('pre', False), c.get('sform'), c.get('symform'))
@@ -3225,6 +3243,61 @@ def matrix_cases(rng):
     return out
 
 
+POS_VARIANTS = ['pos', 'spos', 'upos', 'supos']
+
+
+def posvariant_cases(seed, scaled):
+    """dump files with EVERY ordered non-empty subset of the four position variants (x y z, xs ys zs, xu yu zu,
+    xsu ysu zsu: 64 column orders); `scaled`: besides, each subset holding `pos` with the unit 'scaled' on the pos entry
+    itself (x y z box-relative, or named xs ys zs when no spos column claims the names) - one request changes what the
+    writer's table of positions holds while the other variants are derived next to it.  Cells are triclinic or
+    orthogonal with an origin away from zero (never the unit cube at the origin, where Cartesian = relative), atoms
+    inside and outside; the caller's forms (plain names / prop_info list / parallel lists) taken in turn.  Own random
+    stream: the cases of the other generators stay what they were."""
+    import itertools
+    rng = random.Random(seed * 104729 + 5)
+    out = []
+    k = 0
+    for r in range(1, 5):
+        for sub in itertools.permutations(POS_VARIANTS, r):
+            for pu in ((None, 'scaled') if ('pos' in sub and scaled) else (None,)):
+                k += 1
+                extra = [p for p in DUMP_EXTRA[:2] if rng.random() < 0.2]
+                d = gen_desc(rng, 'grid' if k % 2 else 'generic', extra, lammps=True, nmax=5)
+                if all(abs(x) < 1e-12 for x in d['origin']):
+                    d['origin'] = [0.5, -1.25, 2.0]
+                    d['pos'] = [[p[j] + d['origin'][j] for j in range(3)] for p in d['pos']]
+                pn = ['atom_id', 'atype'] + list(sub) + [p[0] for p in extra]
+                if k % 5 == 0:
+                    pn = list(sub) + ['atype', 'atom_id'] + [p[0] for p in extra]
+                units = 'metal' if k % 3 else rng.choice(['real', 'si', 'nano', 'lj'])
+                c = {'kind': 'dump', 'd': d, 'units': units, 'ff': pick_format(rng, units), 'prop_names': pn,
+                     'explicit': [None, 'prop_info', 'lists'][k % 3], 'timestep': 0, 'out': None, 'pre': False, 'wu': None}
+                if pu:
+                    c['posunit'] = pu
+                    c['explicit'] = ['prop_info', 'lists'][k % 2]
+                    if 'spos' not in sub and k % 3 == 0:
+                        c['posnames'] = ['xs', 'ys', 'zs']
+                elif scaled:
+                    continue
+                out.append(c)
+    return out
+
+
+def huge_cases(seed):
+    """THOROUGH tier only: ONE system of a few atoms more than 2^20 = 1 048 576 through every writer (tables with and
+    without the column-name line), generated one at a time (each holds ~10^6 rows of python numbers).  Row-count
+    thresholds above ~1.4e5 atoms (BIG_SIZES_B) are out of reach of the quick tier: one such table costs ~10 s."""
+    rb = random.Random(seed * 31 + 2)
+    n = 2 ** 20 + rb.choice([1, 5, 17])
+    for kind, hdr in (('table', True), ('table', False), ('data', None), ('dump', None), ('poscar', None)):
+        c = sized_case(rb, kind, n)
+        if hdr is not None:
+            c['header'] = hdr
+            c['hform'] = None
+        yield c
+
+
 def correspond(ctx):
     rng = ctx.rng
     correspond_fmt(ctx, rng, ctx.n(1500, 30000))
@@ -3242,6 +3315,8 @@ def correspond(ctx):
             retarget(rng, c, st, un, gen_desc(rng, c['d']['regime'], needed_props(st, k % 3 == 0), nmax=5))
             c['natypes'] = None
             cases.append(c)
+    # every ordered subset of the position variants of a dump file (own random stream)
+    cases += posvariant_cases(ctx.seed, False)
     for i in range(0, len(cases), 200):
         run_cases(ctx, cases[i:i + 200])
     # bounding-box map and its inverse on their own
@@ -3350,7 +3425,7 @@ def _oracle_case(ctx, c, report):
                                info=real[2], fname=info_fname(c))
         elif kind == 'dump':
             parsed = py_parse_dump(text)
-            fails = check_dump(c['d'], c['units'], c['ff'], parsed, c.get('timestep', 0))
+            fails = check_dump(c['d'], c['units'], c['ff'], parsed, c.get('timestep', 0), c.get('posunit') == 'scaled')
         else:
             parsed = py_parse_poscar(text, sample_rows(len(c['d']['atype'])))
             fails = check_poscar(c['d'], c['ff'], c['coordstyle'], c['scale'], c['symbols'], parsed)
@@ -3614,11 +3689,16 @@ def search(ctx, broken):
     # the search also draws what the model has no counterpart for: %g formats, values at the edges of the double range
     cases = base + [gen_data_case(rng, i) for i in range(nd)] + [gen_dump_case(rng, i, specials=0.15) for i in range(nu)] \
         + [gen_poscar_case(rng, i) for i in range(npo)] + [gen_table_case(rng, i, specials=0.25) for i in range(nt)]
+    # every ordered subset of the position variants of a dump file, with and without the unit 'scaled' on pos itself
+    cases += posvariant_cases(ctx.seed, False) + posvariant_cases(ctx.seed, True)
     for c in cases:
         oracle_case(ctx, c, report)
     # pinned regression inputs (simple systems that exposed defects before)
     for c in pinned_cases():
         oracle_case(ctx, c, report)
+    if ctx.thorough:
+        for c in huge_cases(ctx.seed):
+            oracle_case(ctx, c, report)
 
 
 def pinned_cases():
